@@ -115,7 +115,8 @@ def frame_verdict(trk, snap, pre, f, client, knob, gc_possible=True):
         if state == 'closed' and pre.closed_by == 'rst_sent':
             p = f.promised
             if forgotten or not p or p % 2 or p <= snap['hi_peer']:
-                return either(('stream', C.REFUSED_STREAM), ('conn', P))
+                # a promised id that is not new: a connection error, or the reaction any frame on that (reset) id gets
+                return either(('stream', C.REFUSED_STREAM), ('conn', P), ('stream', SC), ('conn', SC))
             return ('stream', C.REFUSED_STREAM)     # refusal of the promised stream
         return ('conn', P)
     return ACCEPT
